@@ -13,6 +13,7 @@ import (
 // writeSet collects the variables syntactically assigned in the nodes, and whether heap
 // memory may be written (field/element stores, appends, calls).
 type writeSet struct {
+	globals map[*types.Var]bool
 	vars  map[types.Object]bool
 	heap  bool
 	calls bool
@@ -59,7 +60,10 @@ func (x *Exec) collectWrites(ws *writeSet, nodes ...ast.Node) {
 			if o := x.objOf(id); o != nil {
 				ws.vars[o] = true
 				if v, ok := o.(*types.Var); ok && x.isGlobal(v) {
-					ws.heap = true
+					if ws.globals == nil {
+						ws.globals = map[*types.Var]bool{}
+					}
+					ws.globals[v] = true
 				}
 			}
 		}
@@ -208,6 +212,9 @@ func (x *Exec) havocVars(s *State, ws *writeSet) {
 	if ws.heap {
 		x.havocAllHeap(s)
 	}
+	for g := range ws.globals {
+		x.heapSet(s, x.globalName(g), x.havocValue(s, "havoc_"+g.Name(), g.Type()))
+	}
 }
 
 func sortObjs(objs []types.Object) {
@@ -263,7 +270,9 @@ func (x *Exec) cutLoop(s *State, ord int, label string, spec *LoopSpec, pos toke
 	x.havocVars(h, ws)
 	if spec != nil {
 		for _, inv := range spec.Invariants {
-			h.assume(x.evalClause(h, inv))
+			t := x.evalClause(h, inv)
+			x.tagHyp(t, fmt.Sprintf("loop%d.inv#%d", ord, inv.Ord))
+			h.assume(t)
 		}
 	} else if len(x.frames) == 1 && x.dry == 0 {
 		x.note("%s: loop %d has no invariant (havoc only)", x.pos(pos), ord)
@@ -273,7 +282,7 @@ func (x *Exec) cutLoop(s *State, ord int, label string, spec *LoopSpec, pos toke
 	if h.dead {
 		return nil
 	}
-	lc := &loopCtx{label: label}
+	lc := &loopCtx{label: label, body: body.List}
 	f.loops = append(f.loops, lc)
 	var exit *State
 	if c != True {
@@ -310,7 +319,9 @@ func (x *Exec) cutLoop(s *State, ord int, label string, spec *LoopSpec, pos toke
 					x.goalMode = true
 					g := x.evalClause(e, inv)
 					x.goalMode = false
+					x.curTag = fmt.Sprintf("loop%d.inv#%d", ord, inv.Ord)
 					x.obligeNamed(e, fmt.Sprintf("%s/loop%d.inv#%d.preserved", top, ord, inv.Ord), "invariant", g, x.pos(pos), inv.Text)
+					x.curTag = ""
 				}
 				if dec0 != nil {
 					d1 := x.evalClauseVal(e, spec.Decreases)
@@ -469,12 +480,14 @@ func (x *Exec) rangeLoop(s *State, n *ast.RangeStmt, ord int, label string, spec
 	bindKey(h)
 	if spec != nil {
 		for _, inv := range spec.Invariants {
-			h.assume(x.evalClause(h, inv))
+			t := x.evalClause(h, inv)
+			x.tagHyp(t, fmt.Sprintf("loop%d.inv#%d", ord, inv.Ord))
+			h.assume(t)
 		}
 	} else if len(x.frames) == 1 && x.dry == 0 {
 		x.note("%s: loop %d has no invariant (havoc only)", x.pos(n.Pos()), ord)
 	}
-	lc := &loopCtx{label: label}
+	lc := &loopCtx{label: label, body: n.Body.List}
 	f.loops = append(f.loops, lc)
 	exit := h.clone()
 	exit.assume(Cmp(">=", i, length))
@@ -497,11 +510,25 @@ func (x *Exec) rangeLoop(s *State, n *ast.RangeStmt, ord int, label string, spec
 				x.goalMode = true
 				g := x.evalClause(e, inv)
 				x.goalMode = false
+				x.curTag = fmt.Sprintf("loop%d.inv#%d", ord, inv.Ord)
 				x.obligeNamed(e, fmt.Sprintf("%s/loop%d.inv#%d.preserved", top, ord, inv.Ord), "invariant", g, x.pos(n.Pos()), inv.Text)
+				x.curTag = ""
 			}
 		}
 	}
 	f.loops = f.loops[:len(f.loops)-1]
 	outs := append([]*State{exit}, lc.breaks...)
 	return x.merge(h, outs...)
+}
+
+func (x *Exec) tagHyp(t *Term, tag string) {
+	if x.hypTags == nil {
+		x.hypTags = map[*Term]string{}
+	}
+	if t.K == TApp && t.Op == "and" {
+		for _, a := range t.Args {
+			x.hypTags[a] = tag
+		}
+	}
+	x.hypTags[t] = tag
 }
